@@ -4,7 +4,7 @@ property (plus any property already recorded in caught_by, plus extras given as 
 checks reported a violation in meta.json (caught_by) and seeded/MATRIX.md."""
 import json, os, subprocess, sys, re
 root = "/verif/seeded"
-EXTRA = {"C15-a": ["C14"], "C10-a": ["C14"]}
+EXTRA = {"C15-a": ["C14"], "C10-a": ["C14"], "C10-c": ["C14"], "C11-c": ["C14"]}
 seeds = sorted(d for d in os.listdir(root) if os.path.isdir(os.path.join(root, d)))
 if len(sys.argv) > 1:
     seeds = [s for s in seeds if s in sys.argv[1:]]
